@@ -121,3 +121,83 @@ def replay(call):
             except Exception as e:  # noqa
                 return dict(fails=True, detail='%s (probe #%d): after the caller altered the first result, an equal call raises %r' % (fname, k, e))
     return dict(fails=False, detail='%d native probes of %s left the arguments unchanged and repeatable' % (n, fname))
+
+
+# ====================================================================================================== tables and mappings
+def _snap_obj(x):
+    """structure + identity of the containers inside (a replaced inner list is a change even when it holds equal values)"""
+    if isinstance(x, dict):
+        return ('d', type(x).__name__, [(repr(k), id(v), _snap_obj(v)) for k, v in dict.items(x)])
+    if isinstance(x, (list, tuple)):
+        return (type(x).__name__, [(id(v) if isinstance(v, (list, dict)) else None, _snap_obj(v)) for v in x])
+    return repr(x)
+
+
+def _table_probes():
+    from pyg_base import dictable, Dict, dictattr, ulist
+    T = lambda: dictable(a=[1, None, 3, 1], b=['x', 'y', 'x', 'x'], c=[1., 2., 3., 4.])          # noqa
+    G = lambda: dictable(a=[1, 1, 2], b=['x', 'y', 'x'], c=[[1], [2, 3], [4]])                  # noqa
+    R = lambda: dictable(a=[1, 3, 5], d=['p', 'q', 'r'])                                          # noqa
+    M = lambda: Dict(a=1, b=[2, 3], c=dict(x=[4]))                                                # noqa
+    A = lambda: dictattr(a=1, b=[2, 3], c=dict(x=[4]))                                            # noqa
+    U = lambda: ulist([1, 2, 3])                                                                  # noqa
+    P = {
+        'dictable.__getitem__': [(T, lambda d: d[0]), (T, lambda d: d[:2]), (T, lambda d: d[[True, False, True, False]]), (T, lambda d: d[['a', 'b']]), (T, lambda d: d[[0, 2]]),
+                                 (T, lambda d: d['a', 'b']), (T, lambda d: d[lambda a, c: (a, c)])],
+        'dictable.__iter__': [(T, lambda d: list(d))], 'dictable.__len__': [(T, lambda d: len(d))],
+        'dictable.get': [(T, lambda d: d.get('a')), (T, lambda d: d.get('zz', 0))],
+        'dictable.do': [(T, lambda d: d.do(str, 'a')), (T, lambda d: d.do([str, len], 'b'))],
+        'dictable.concat': [(T, lambda d: d.concat(d, R()))], 'dictable.__add__': [(T, lambda d: d + R()), (T, lambda d: d + dict(a=9, b='z', c=0.))],
+        'dictable.sort': [(T, lambda d: d.sort('b')), (T, lambda d: d.sort(lambda c: -c)), (T, lambda d: d.sort('b', 'c'))],
+        'dictable.if_none': [(T, lambda d: d.if_none(a=0)), (T, lambda d: d.if_none(0, c=lambda a: a))],
+        'dictable.apply': [(T, lambda d: d.apply(lambda c: c + 1))],
+        'dictable.inc': [(T, lambda d: d.inc(b='x')), (T, lambda d: d.inc(lambda c: c > 1)), (T, lambda d: d.inc(a=None)), (T, lambda d: d.inc(b='nope'))],
+        'dictable.exc': [(T, lambda d: d.exc(b='x')), (T, lambda d: d.exc(lambda c: c > 1)), (T, lambda d: d.exc(a=[1, None]))],
+        'dictable.one_or_none': [(T, lambda d: d.inc(a=3).one_or_none('b') if hasattr(d, 'one_or_none') else None)],
+        'dictable.__getattr__': [(T, lambda d: d.a), (T, lambda d: d.find_b(a=3))],
+        'dictable.join': [(T, lambda d: d.join(R(), 'a')), (T, lambda d: d * R()), (T, lambda d: d.join(R(), 'a', mode='l'))],
+        'dictable.xor': [(T, lambda d: d.xor(R(), 'a')), (T, lambda d: d / R())],
+        'dictable._listby': [(T, lambda d: [list(x) for x in d._listby(('a',))]), (T, lambda d: [list(x) for x in d._listby(('b', 'a'))])],
+        'dictable.listby': [(T, lambda d: d.listby('b')), (T, lambda d: d.listby('a', 'b'))],
+        'dictable.unlist': [(G, lambda d: d.unlist())], 'dictable.groupby': [(T, lambda d: d.groupby('b')), (T, lambda d: d.groupby('a', 'b'))],
+        'dictable.ungroup': [(T, lambda d: d.groupby('b').ungroup())],
+        'dictable.xyz': [(T, lambda d: d.xyz('a', 'b', 'c')), (T, lambda d: d.xyz('a', 'b', 'c', len))],
+        'dictable.unpivot': [(T, lambda d: d.xyz('a', 'b', 'c', len).unpivot('a', 'b', 'c'))],
+        'dictable.update': None, 'dictable.__setitem__': None, 'dictable.__init__': None,          # modify top(self) by contract
+        'dict_concat': None,
+        'Dict.__call__': [(M, lambda d: d(e=lambda a: a + 1, f=lambda e: e * 2))], 'Dict.do': [(M, lambda d: d.do(str, 'a'))],
+        'Dict.apply': [(M, lambda d: d.apply(lambda a, b: (a, b)))], 'Dict.__getitem__': [(M, lambda d: d[lambda a: a]), (M, lambda d: d['a', 'b']), (M, lambda d: d[['a']])],
+        'dictattr.relabel': [(A, lambda d: d.relabel(a='z')), (A, lambda d: d.relabel(lambda k: k + '_'))],
+        'dictattr.__sub__': [(A, lambda d: d - 'a'), (A, lambda d: d - ['a', 'zz'])], 'dictattr.__and__': [(A, lambda d: d & 'a'), (A, lambda d: d & ['a', 'b', 'zz'])],
+        'dictattr.__add__': [(A, lambda d: d + dict(a=5, z=[6]))], 'dictattr.__or__': [(A, lambda d: d | dict(a=5))],
+        'dictattr.__getitem__': [(A, lambda d: d['a']), (A, lambda d: d['a', 'b']), (A, lambda d: d[['a', 'b']])],
+        'dictattr.keys': [(A, lambda d: d.keys())], 'dictattr.values': [(A, lambda d: d.values())], 'dictattr.__truediv__': [(A, lambda d: d / 'a' if hasattr(d, '__truediv__') else None)],
+        'dictattr.copy': [(A, lambda d: d.copy())],
+        'ulist.__add__': [(U, lambda u: u + 4), (U, lambda u: u + [3, 4, 4])], 'ulist.__sub__': [(U, lambda u: u - 2), (U, lambda u: u - [2, 9])],
+        'ulist.__and__': [(U, lambda u: u & [2, 3, 9])], 'ulist.__init__': None,
+    }
+    return P
+
+
+def replay_table(call):
+    """native probe behind a failed frame obligation of a table / mapping / ulist method: the method is run on sample receivers; the receiver (down
+    to the identity of the containers inside it) must be the same afterwards"""
+    name = call.get('name', '')
+    qual = '.'.join(name.split('.')[:2]) if name.split('.')[0] in ('dictable', 'Dict', 'dictattr', 'ulist') else name.split('.')[0]
+    P = _table_probes()
+    if qual not in P:
+        return dict(fails=None, detail='no native frame probe for %s' % qual)
+    if P[qual] is None:
+        return dict(fails=None, detail='%s modifies its receiver by contract; no native probe for the rest of its frame' % qual)
+    n = 0
+    for k, (mk, f) in enumerate(P[qual]):
+        d = mk()
+        before = _snap_obj(d)
+        try:
+            r = f(d)
+        except Exception:       # noqa
+            continue
+        n += 1
+        if _snap_obj(d) != before:
+            return dict(fails=True, detail='%s (probe #%d) changed its receiver: now %r' % (qual, k, dict(d) if isinstance(d, dict) else list(d)))
+    return dict(fails=False, detail='%d native probes of %s left the receiver unchanged' % (n, qual))
